@@ -336,6 +336,10 @@ func Run(r *sim.R, prop string) {
 		inlinePolicyCase(r, prop)
 		return
 	}
+	if prop == "C04" && t.Chance(1, 24, "validators-of-inline-fields-and-small-buffers") {
+		inlineValidatorCase(r, prop)
+		return
+	}
 	e.G.varexp = t.Chance(1, 3, "with-varexp")
 	e.G.custom = t.Chance(1, 6, "custom-tag-names")
 	if !e.G.custom && t.Chance(1, 6, "named-top-level") {
